@@ -313,7 +313,7 @@ func c06Body(faulty bool) func(rc *RunCtx) {
 			total += k
 		}
 		simrt.SetStepsGuess(int64(total) * 120)
-		pace := simrt.Choose(6) // 0 burst, 1 occasional pauses, 2 slow senders, 3 around whole seconds, 4 right when a dial starts, 5 long quiet periods
+		pace := simrt.Choose(7) // 6 = around the background goroutine's 5 s wake-ups; 0 burst, 1 occasional pauses, 2 slow senders, 3 around whole seconds, 4 right when a dial starts, 5 long quiet periods
 		sentCount := 0
 		doSend := func(task int, it item, phase string) *c06Send {
 			p := c06MakePack(it.id, it.kind, it.size, it.pcode)
@@ -402,6 +402,12 @@ func c06Body(faulty bool) func(rc *RunCtx) {
 						// park until some task starts a connection attempt (or a few seconds pass), so
 						// that the next send overlaps a dial in flight
 						simrt.SleepOrWake(time.Duration(2000+simrt.Choose(7000))*time.Millisecond, &d.dialWait)
+					case 6:
+						// sends timed around multiples of five seconds: the client's background goroutine
+						// wakes (and, without a connection, re-dials) on that grid
+						el := simrt.Elapsed()
+						next := (el/int64(5*time.Second) + 1) * int64(5*time.Second)
+						simrt.Sleep(time.Duration(next-el) + time.Duration(simrt.Choose(16000)-2000)*time.Microsecond)
 					case 5:
 						// quiet periods around and beyond the client's own time-outs (60 s)
 						if simrt.Chance(1, 3) {
